@@ -108,6 +108,11 @@ def gen_cases(kind, n, salt):
     elif kind == "msetdup":
         for i in range(n):
             cases.append(("msetdup", i, None, {"strategy": "auto", "lists": "on"}))
+    elif kind == "dupkeys":
+        # mappings in which a KEY occurs more than once (DictNode "supports matching dictionaries with duplicate keys"; only
+        # reachable through the API - every loader goes through a Python dict); all pairs of one mapping are different
+        for i in range(n):
+            cases.append(("dupkeys", i, None, {"strategy": r.choice(("auto", "match")), "lists": "on"}))
     elif kind == "repeatstr":
         # the same (from string, to string) pairs recur at several places of the two documents, next to renamed
         # keys that go through the matcher: state shared between equal sub-comparisons would show
@@ -242,7 +247,7 @@ def gen_cases(kind, n, salt):
             if i % 4 == 3:
                 a, b = [a, word(2, 6)], [b, word(2, 6)]
             cases.append(("json", a, b, r.choice(docs.ALL_OPTS[:3])))
-    elif kind in ("csv", "pyobj", "plist", "loaded", "crossplist", "mixedopts"):
+    elif kind in ("csv", "pyobj", "plist", "loaded", "crossplist", "mixedopts", "cli"):
         for i in range(n):
             cases.append((kind, i, None, r.choice(docs.ALL_OPTS)))
     elif kind == "huge":
@@ -256,6 +261,53 @@ def gen_cases(kind, n, salt):
     else:
         raise MachineryError("unknown corpus kind %r" % kind)
     return cases
+
+
+CLI_SPELLINGS = {
+    "none": (["-k"], ["--no-key-edits"], ["--dict-strategy", "none"], ["-ds", "none"], ["--dict-strategy=none"]),
+    "auto": ([], ["--dict-strategy", "auto"], ["-ds", "auto"]),
+    "match": (["--dict-strategy", "match"], ["-ds", "match"]),
+    "on": ([],), "off": (["-l"], ["--no-list-edits"]), "offsame": (["-ll"], ["--no-list-edits-when-same-length"]),
+}
+
+
+def cli_trees(da, db, opts, r):
+    import json
+    import tempfile
+    import graphtage.tree
+    from . import cli
+    from .common import scratch
+    d = tempfile.mkdtemp(prefix="clitrees-", dir=scratch())
+    fa, fb = os.path.join(d, "a.json"), os.path.join(d, "b.json")
+    with open(fa, "w") as f:
+        json.dump(da, f)
+    with open(fb, "w") as f:
+        json.dump(db, f)
+    groups = [[fa, fb], ["--no-status"], ["--no-color"], list(r.choice(CLI_SPELLINGS[opts["strategy"]])),
+              list(r.choice(CLI_SPELLINGS[opts["lists"]])), r.choice(([], [], ["-e"], ["-d"]))]
+    r.shuffle(groups)               # options before, between (no: the two paths stay adjacent) and after the file names
+    argv = [x for g in groups for x in g]
+    got = []
+    cls = graphtage.tree.TreeNode
+    old = cls.diff, cls.get_all_edits, cls.get_all_edit_contexts
+
+    class Taken(Exception):
+        pass
+
+    def take(self, node, *a, **k):
+        got.append((self, node))
+        raise Taken()
+    cls.diff = cls.get_all_edits = cls.get_all_edit_contexts = take
+    try:
+        res = cli.run_main(argv)
+    finally:
+        cls.diff, cls.get_all_edits, cls.get_all_edit_contexts = old
+        for p in (fa, fb):
+            os.unlink(p)
+        os.rmdir(d)
+    if not got:
+        raise MachineryError("the command did not reach the comparison for %s: %s" % (argv, res))
+    return got[0]
 
 
 def msetdup_collide(case, salt):
@@ -300,6 +352,19 @@ def build_pair(case, salt):
         db = docs.mutate(da, r)
         other = r.choice([o for o in docs.ALL_OPTS if o != opts])
         return docs.build(da, opts), docs.build(db, other)
+    if kind == "cli":
+        # the trees the COMMAND builds for an option set, under one of the documented spellings of that option set: the two
+        # files are given to graphtage.__main__.main (in-process) and the trees it hands to diff() / get_all_edits() are taken
+        r = rng("cli", salt, a)
+        da = docs.random_doc(r, depth=r.choice((2, 3)))
+        while not isinstance(da, (dict, list)) or not da:
+            da = docs.random_doc(r, depth=r.choice((2, 3)))
+        db = docs.mutate(da, r)
+        if isinstance(da, dict) and isinstance(db, dict) and r.random() < 0.6:
+            # renamed keys: what the 'none' strategy must NOT pair
+            for k in r.sample(sorted(db, key=str), min(len(db), r.randint(1, 2))):
+                db[str(k) + r.choice(("x", "_new", "2"))] = db.pop(k)
+        return cli_trees(da, db, opts, r)
     if kind == "mixedkeys":
         r = rng("mixedkeys", salt, a)
         da, db = docs.random_mixedkeys_docs(r)
@@ -385,6 +450,21 @@ def build_pair(case, salt):
         if r.random() < 0.5:
             x, y = y, x
         return docs.build(x, opts), docs.build(y, opts)
+    if kind == "dupkeys":
+        import graphtage
+        r = rng("dupkeys", salt, a)
+
+        def dnode():
+            pairs, seen = [], set()
+            while len(pairs) < r.randint(1, 4):
+                k, v = r.choice(("k", "k", "a", "b")), r.choice((0, 1, 2, 3, 4, "x", "xy"))
+                if (k, v) in seen:
+                    continue
+                seen.add((k, v))
+                val = graphtage.IntegerNode(v) if isinstance(v, int) else graphtage.StringNode(v)
+                pairs.append(graphtage.KeyValuePairNode(graphtage.StringNode(k), val, allow_key_edits=True))
+            return graphtage.DictNode(sorted(pairs), auto_match_keys=(opts["strategy"] == "auto"))
+        return dnode(), dnode()
     if kind == "msetdup":
         r = rng("msetdup", salt, a)
         return docs.random_mset_tree(r, dup=True), docs.random_mset_tree(r, dup=True)
@@ -392,6 +472,11 @@ def build_pair(case, salt):
         r = rng("xml", salt, a)
         e = docs.random_xml_element(r)
         e2 = docs.mutate_xml(e, r) if r.random() < 0.8 else docs.random_xml_element(r)
+        c = r.random()
+        if c < 0.15:
+            e2 = docs.relayout_xml(e, r)             # equal as data, different layout (indented vs. on one line)
+        elif c < 0.3:
+            e, e2 = docs.relayout_xml(e, r), docs.relayout_xml(e2, r)
         return docs.build_xml(e, opts), docs.build_xml(e2, opts)
     raise MachineryError("unknown case kind %r" % kind)
 
